@@ -883,6 +883,38 @@ func (e *orderEngine) classify(l *mapLoop) []sink {
 				}
 				eval(ins, re.Kind, re.Target, re.KeyVal, false, re.ValConst, valDep, re.Field, re.Why, true)
 			}
+			// A closure (or bound method value) created in the loop body is taken
+			// to run once per iteration — it is handed to a walker as its call-back.
+			// Its effects on what it captures happen in iteration order.
+			if mc, ok := ins.(*ssa.MakeClosure); ok {
+				if fn, ok := mc.Fn.(*ssa.Function); ok {
+					target := fn
+					bound := fn.Synthetic != "" && strings.HasSuffix(fn.Name(), "$bound")
+					if bound {
+						target = normFn(e.p, fn)
+					}
+					if gs := e.sum[target]; gs != nil {
+						ids := make([]string, 0, len(gs.effects))
+						for id := range gs.effects {
+							ids = append(ids, id)
+						}
+						sort.Strings(ids)
+						for _, id := range ids {
+							ef := gs.effects[id]
+							why := "call-back " + fnName(target) + " created in the loop: " + ef.Why
+							switch {
+							case bound && ef.Root == 0 && len(mc.Bindings) > 0:
+								eval(ins, ef.Kind, mc.Bindings[0], nil, ef.Key == -2, ef.ValConst, true, ef.Field, why, false)
+							case !bound && ef.Root <= -2:
+								if k := -(ef.Root + 2); k < len(mc.Bindings) {
+									eval(ins, ef.Kind, mc.Bindings[k], nil, ef.Key == -2, ef.ValConst, true, ef.Field, why, false)
+								}
+							}
+						}
+					}
+				}
+				continue
+			}
 			call, ok := ins.(ssa.CallInstruction)
 			if !ok {
 				continue
@@ -1064,7 +1096,141 @@ func isSanitiserCall(cl ssa.CallInstruction) bool {
 	if o == nil || o.Pkg() == nil {
 		return false
 	}
-	return sanitiserFuncs[o.Pkg().Path()+"."+o.Name()]
+	if !sanitiserFuncs[o.Pkg().Path()+"."+o.Name()] {
+		return false
+	}
+	// a sort driven by a comparison function removes the map order only if the
+	// comparison orders the elements themselves: a comparison of a many-to-one
+	// key (a rank, a looked-up value) leaves elements with equal keys in the
+	// order they arrived in
+	switch o.Name() {
+	case "Slice", "SliceStable", "SortFunc", "SortStableFunc":
+		args := cl.Common().Args
+		if len(args) >= 2 {
+			if fn, ok := stripFuncValue(args[1]); ok {
+				return comparatorOrdersElements(fn)
+			}
+		}
+	}
+	return true
+}
+
+// comparatorOrdersElements: some ordered comparison in the less function has
+// both operands taken from the indexed elements themselves — directly, through
+// field selections, or through argument-less methods of the element (Name()) —
+// and not through a map look-up keyed by the element or a function applied to it.
+func comparatorOrdersElements(less *ssa.Function) bool {
+	if less == nil || len(less.Blocks) == 0 {
+		return true // not analysable here: keep the previous behaviour
+	}
+	var fromElem func(v ssa.Value, d int) bool
+	fromElem = func(v ssa.Value, d int) bool {
+		if v == nil || d > 10 {
+			return false
+		}
+		switch x := v.(type) {
+		case *ssa.Parameter:
+			// slices.SortFunc(a, b T): the elements are the parameters
+			_, isInt := x.Type().Underlying().(*types.Basic)
+			return !isInt || x.Type().Underlying().(*types.Basic).Kind() != types.Int
+		case *ssa.UnOp:
+			return fromElem(x.X, d+1)
+		case *ssa.IndexAddr:
+			_, isParam := x.Index.(*ssa.Parameter)
+			return isParam
+		case *ssa.Index:
+			_, isParam := x.Index.(*ssa.Parameter)
+			return isParam
+		case *ssa.FieldAddr:
+			return fromElem(x.X, d+1)
+		case *ssa.Field:
+			return fromElem(x.X, d+1)
+		case *ssa.Convert:
+			return fromElem(x.X, d+1)
+		case *ssa.ChangeType:
+			return fromElem(x.X, d+1)
+		case *ssa.Call:
+			// argument-less method of the element, or a string normaliser applied to it
+			if x.Call.IsInvoke() && len(x.Call.Args) == 0 {
+				return fromElem(x.Call.Value, d+1)
+			}
+			if sc := x.Call.StaticCallee(); sc != nil {
+				if sc.Signature.Recv() != nil && len(x.Call.Args) == 1 {
+					return fromElem(x.Call.Args[0], d+1)
+				}
+				// a formatted key built from selections of the element only
+				if sc.Pkg != nil && sc.Pkg.Pkg.Path() == "fmt" && strings.HasPrefix(sc.Name(), "Sprint") {
+					n := 0
+					for _, a := range x.Call.Args {
+						if _, isK := a.(*ssa.Const); isK {
+							continue
+						}
+						if sl, ok := a.(*ssa.Slice); ok {
+							if al, ok := sl.X.(*ssa.Alloc); ok && al.Referrers() != nil {
+								for _, r := range *al.Referrers() {
+									if ia, ok := r.(*ssa.IndexAddr); ok && ia.Referrers() != nil {
+										for _, r2 := range *ia.Referrers() {
+											if st, ok := r2.(*ssa.Store); ok {
+												v := st.Val
+												if mi, ok := v.(*ssa.MakeInterface); ok {
+													v = mi.X
+												}
+												if _, isK := v.(*ssa.Const); isK {
+													continue
+												}
+												if !fromElem(v, d+1) {
+													return false
+												}
+												n++
+											}
+										}
+									}
+								}
+								continue
+							}
+						}
+						if !fromElem(a, d+1) {
+							return false
+						}
+						n++
+					}
+					return n > 0
+				}
+				if sc.Pkg != nil && sc.Pkg.Pkg.Path() == "strings" && (sc.Name() == "ToLower" || sc.Name() == "ToUpper") && len(x.Call.Args) == 1 {
+					return fromElem(x.Call.Args[0], d+1)
+				}
+			}
+		case *ssa.Phi:
+			for _, e := range x.Edges {
+				if !fromElem(e, d+1) {
+					return false
+				}
+			}
+			return len(x.Edges) > 0
+		}
+		return false
+	}
+	found := false
+	for _, f := range withClosures(less) {
+		eachInstr(f, func(_ *ssa.BasicBlock, i ssa.Instruction) {
+			switch x := i.(type) {
+			case *ssa.BinOp:
+				switch x.Op {
+				case token.LSS, token.GTR, token.LEQ, token.GEQ:
+					if fromElem(x.X, 0) && fromElem(x.Y, 0) {
+						found = true
+					}
+				}
+			case *ssa.Call:
+				if o := calleeObj(x); o != nil && o.Pkg() != nil && o.Pkg().Path() == "strings" && o.Name() == "Compare" && len(x.Call.Args) == 2 {
+					if fromElem(x.Call.Args[0], 0) && fromElem(x.Call.Args[1], 0) {
+						found = true
+					}
+				}
+			}
+		})
+	}
+	return found
 }
 
 // sortedBeforeUse: the slice stored at addr (a local cell or a field) is passed
